@@ -31,7 +31,7 @@ Definition pots_ok (card : var -> nat) (t : ctree D) : bool :=
 
 (* [cards cliques edges adj pots] -> [jt_ok; sched_ok; converged; beliefs; sepsets; brute clique marginals;
                                        brute sepset marginals];   error 1 = malformed tree *)
-Definition calibrate_reply (card : var -> nat) (t : ctree D) : sx :=
+Definition calibrate_reply (lite : bool) (card : var -> nat) (t : ctree D) : sx :=
   if wf_tree D card t && pots_ok card t then
     let st := calibrate D card t in
     sx_ok (SL [ of_bool (jt_chk D t);
@@ -47,15 +47,15 @@ Definition calibrate_reply (card : var -> nat) (t : ctree D) : sx :=
                                 end ])
                         (combine (all_ed D t) (tedges D t));
                 of_list (fun i => of_tab (table_on D card (clq D t i) (brute_marginal D card t (clq D t i))))
-                        (all_cl D t);
+                        (if lite then [] else all_cl D t);
                 of_list (fun e => of_tab (table_on D card (sepset D t (fst e) (snd e))
                                                    (brute_marginal D card t (sepset D t (fst e) (snd e)))))
-                        (tedges D t) ])
+                        (if lite then [] else tedges D t) ])
   else sx_err 1.
 
 (* [.. Q ev] -> [cert; table over Q of the VE answer (unnormalised); per-variable tables;
                  brute-force table over Q (unnormalised)]; error 2 = a sepset belief is missing *)
-Definition query_reply (card : var -> nat) (t : ctree D) (Q : list var) (ev : list (var * nat)) : sx :=
+Definition query_reply (lite : bool) (card : var -> nat) (t : ctree D) (Q : list var) (ev : list (var * nat)) : sx :=
   if wf_tree D card t && pots_ok card t then
     let st0 := init_state D t in
     let st := if is_converged D card t st0 then st0 else calibrate D card t in
@@ -64,26 +64,26 @@ Definition query_reply (card : var -> nat) (t : ctree D) (Q : list var) (ev : li
         sx_ok (SL [ of_bool (query_cert D card t Q ev r);
                     of_tab (table_on D card Q (q_factor D r));
                     of_list (fun q => of_tab (table_on D card [q] (fmarg D card (vminus Q [q]) (q_factor D r)))) Q;
-                    of_tab (table_on D card Q (brute_query D card t Q ev));
+                    (if lite then SL [] else of_tab (table_on D card Q (brute_query D card t Q ev)));
                     of_list of_nat (q_sub D r) ])
     | None => sx_err 2
     end
   else sx_err 1.
 
-Definition gen_calibrate (s : sx) : sx :=
+Definition gen_calibrate (lite : bool) (s : sx) : sx :=
   match s with
   | SL [sc; scl; se; sa; sp] =>
       match dec_tree sc scl se sa sp with
-      | Some (card, t) => calibrate_reply card t
+      | Some (card, t) => calibrate_reply lite card t
       | None => bad_request
       end
   | _ => bad_request
   end.
-Definition gen_query (s : sx) : sx :=
+Definition gen_query (lite : bool) (s : sx) : sx :=
   match s with
   | SL [sc; scl; se; sa; sp; sq; sev] =>
       match dec_tree sc scl se sa sp, sx_list sx_nat sq, sx_list (sx_pair sx_nat sx_nat) sev with
-      | Some (card, t), Some Q, Some ev => query_reply card t Q ev
+      | Some (card, t), Some Q, Some ev => query_reply lite card t Q ev
       | _, _, _ => bad_request
       end
   | _ => bad_request
@@ -91,6 +91,10 @@ Definition gen_query (s : sx) : sx :=
 End Generic.
 
 Definition idQ (q : Qc) : Qc := q.
-Definition run_c02_calibrate (s : sx) : sx := gen_calibrate Qc_sum_dsr idQ idQ s.
-Definition run_c02_max_calibrate (s : sx) : sx := gen_calibrate Qc_max_dsr idQ idQ s.
-Definition run_c02_query (s : sx) : sx := gen_query Qc_sum_dsr idQ idQ s.
+Definition run_c02_calibrate (s : sx) : sx := gen_calibrate Qc_sum_dsr idQ idQ false s.
+Definition run_c02_max_calibrate (s : sx) : sx := gen_calibrate Qc_max_dsr idQ idQ false s.
+Definition run_c02_query (s : sx) : sx := gen_query Qc_sum_dsr idQ idQ false s.
+(* the same without the model-side brute force (mid-sized models: the harness supplies the exact brute force) *)
+Definition run_c02_calibrate_lite (s : sx) : sx := gen_calibrate Qc_sum_dsr idQ idQ true s.
+Definition run_c02_max_calibrate_lite (s : sx) : sx := gen_calibrate Qc_max_dsr idQ idQ true s.
+Definition run_c02_query_lite (s : sx) : sx := gen_query Qc_sum_dsr idQ idQ true s.
